@@ -399,11 +399,17 @@ struct Hist {
         uint32_t unusual = 0;  // number of fault/unusual events fired in this run
         uint32_t calls = 0;
         std::vector<std::string> log;
+        uint64_t res = 0x77; // results only (final output, verdicts), without the pacing of individual calls
         void rec(const char *tag, std::initializer_list<int64_t> v)
         {
                 h = mix64(h, hash_str(tag));
                 for (int64_t x : v)
                         h = mix64(h, (uint64_t) x);
+                if (!strcmp(tag, "end") || !strcmp(tag, "verdict") || !strcmp(tag, "oneshot") || !strcmp(tag, "end1") || !strcmp(tag, "stateless")) {
+                        res = mix64(res, hash_str(tag));
+                        for (int64_t x : v)
+                                res = mix64(res, (uint64_t) x);
+                }
                 events++;
                 if (g_trace) {
                         std::string l = tag;
